@@ -404,6 +404,101 @@ def check_paths(run, router, keys, quick, samples, distinct):
             return evals
     samples.append({"kind": "bind_multi", "sql": mmeta[0][0], "key_position": mmeta[0][1], "key": mmeta[0][2], "formats": mmeta[0][3], "params_hex": mmeta[0][4], "model": mvals[0]})
 
+    # sequences of Parse/Bind pairs on ONE router: every Bind is read against the placeholders of ITS statement only
+    # (a Bind without a usable key - NULL, non-numeric, empty - changes nothing and leaves nothing behind)
+    TEMPL = [("SELECT * FROM data WHERE id = $1", [1], 1), ("SELECT * FROM data WHERE c1 = $1 AND id = $2", [2], 2),
+             ("SELECT * FROM data WHERE c1 = $1", [], 1), ("UPDATE data SET c1 = $1 WHERE id = $2", [2], 2),
+             ("SELECT * FROM other WHERE x = $1 AND y = $2", [], 2), ("SELECT * FROM data WHERE id = $1 AND c1 = $2", [1], 2),
+             ("DELETE FROM data WHERE c2 = $1 AND c3 = $2 AND id = $3", [3], 3)]
+    r4 = run.rng
+    n = 7
+    qcases, qexprs, qmeta = [], [], []
+    for t in range(160 if quick else 2500):
+        steps, pairs = [], []
+        for i in range(r4.randint(2, 5)):
+            sql, pos, m = r4.choice(TEMPL)
+            binfmt = r4.random() < 0.25
+            params = []
+            for q in range(1, m + 1):
+                if q in pos:
+                    c = r4.random()
+                    k = r4.choice(sub)
+                    if c < 0.55:
+                        params.append(struct.pack(">q", k) if binfmt else str(k).encode())
+                    elif c < 0.75:
+                        params.append(None)
+                    elif c < 0.9:
+                        params.append(struct.pack(">q", k) if binfmt else b"notanumber")
+                    else:
+                        params.append(b"" if not binfmt else struct.pack(">q", k))
+                else:
+                    # non-key parameters are numeric on purpose: harmless unless they are mistaken for a key
+                    v = r4.randint(-10**6, 10**6)
+                    params.append(struct.pack(">q", v) if binfmt else str(v).encode())
+            fm = [1] if binfmt else r4.choice([[], [0]])
+            steps.append({"op": "route", "proto": "P", "sql": sql})
+            steps.append({"op": "bind", "hex": bind_msg(params, fm)})
+            plist = "[" + "; ".join("None" if x is None else "Some " + vlib.coq_bytes(x) for x in params) + "]"
+            qexprs.append("(bind_keys [%s] [%s] %s)" % ("; ".join("%d%%nat" % x for x in pos), "; ".join("true" if f else "false" for f in fm), plist))
+            pairs.append((sql, [None if x is None else x.hex() for x in params], fm))
+        qcases.append({"settings": S2, "steps": steps})
+        qmeta.append(pairs)
+    qvals = vlib.coq_eval("c06s", "From PV Require Import Shard.Paths.\nFrom Coq Require Import ZArith NArith List. Import ListNotations.", qexprs)
+    qres = RL.run_router(router, qcases)
+    vi = 0
+    for pairs, r in zip(qmeta, qres):
+        cur = None
+        for j, pr in enumerate(pairs):
+            mk = vlib.parse_coq(qvals[vi]); vi += 1
+            if len(mk) == 1:
+                cur = pg_partition(mk[0], n)
+            o = r["out"][2 * j + 1]
+            got = "Panics" if ("panic" in o or "panic" in r["out"][2 * j]) else o["state"]["shard"]
+            evals += 1
+            if got != cur:
+                run.violation("counterexample" if got == "Panics" else "tie-broken",
+                              "sequence of Parse/Bind pairs on one connection: after pair %d the router's shard is %r, the keys bound so far give %r" % (j + 1, got, cur),
+                              {"correspondence": "Shard/Paths.v bind_keys (per statement) vs QueryRouter::infer + infer_shard_from_bind", "input": {"pairs": pairs[: j + 1], "shards": n},
+                               "model": cur, "impl": got}, found_input=(got == "Panics"))
+                return evals
+        distinct.add(("bind_seq", json.dumps(pairs)))
+        run.cov["traces_validated_against_impl"] += 1
+    samples.append({"kind": "bind_sequence", "pairs": qmeta[0]})
+
+    # comment routing looks at the first regex_search_limit RAW bytes of the message (for Parse: name, text, parameter types):
+    # bytes that are not valid UTF-8 there (LATIN1 text, a multi-byte character cut at the limit, type OIDs) must not hide the comment
+    n = 5
+    SC = {"shards": n, "func": "pg", "parser": True, "splitting": True, "auto_key": "data.id", "key_regex": r"/\* sharding_key: (\d+) \*/",
+          "shard_regex": r"/\* shard_id: (\d+) \*/"}
+
+    def rawq(b):
+        return (b"Q" + struct.pack(">i", len(b) + 5) + b + b"\0").hex()
+
+    def rawp(b, oids):
+        body = b"\0" + b + b"\0" + struct.pack(">h", len(oids)) + b"".join(struct.pack(">i", x) for x in oids)
+        return (b"P" + struct.pack(">i", len(body) + 4) + body).hex()
+    ccases, cmeta = [], []
+    for k in [x for x in sub if x >= 0][:12]:
+        tails = [b"SELECT 1", b"SELECT 'caf\xe9'", b"SELECT '\xff\xfe'", "SELECT 'żółw'".encode(), b"SELECT '" + b"a" * 968 + "é".encode() + b"'",
+                 b"SELECT '" + b"a" * 2000 + b"'", b"SELECT $1, $2"]
+        for tail in tails:
+            for kind, com, want in (("sharding_key", b"/* sharding_key: %d */ " % k, pg_partition(k, n)), ("shard_id", b"/* shard_id: %d */ " % (k % n), k % n)):
+                ccases.append({"settings": SC, "steps": [{"op": "command", "raw": rawq(com + tail)}]}); cmeta.append((kind, "Q", com + tail, [], want))
+                for oids in ([], [23], [1184, 23], [1700, 2950, 25]):
+                    ccases.append({"settings": SC, "steps": [{"op": "command", "raw": rawp(com + tail, oids)}]}); cmeta.append((kind, "P", com + tail, oids, want))
+    cres = RL.run_router(router, ccases)
+    for (kind, proto, text, oids, want), r in zip(cmeta, cres):
+        o = r["out"][-1]
+        got = "Panics" if "panic" in o else o["state"]["shard"]
+        evals += 1
+        distinct.add(("comment_bytes", kind, proto, text[:60], len(text), tuple(oids)))
+        run.cov["traces_validated_against_impl"] += 1
+        if got != want:
+            run.violation("counterexample", "a %s comment at the start of a %s message (%d bytes of text, parameter types %s) selects shard %r, expected %r: %r..." % (kind, proto, len(text), oids, got, want, text[:80]),
+                          {"input": {"kind": kind, "proto": proto, "text_hex": text.hex(), "oids": oids, "shards": n}, "impl": got, "expected": want})
+            return evals
+    samples.append({"kind": "comment_bytes", "proto": cmeta[1][1], "text": cmeta[1][2][:60].decode("latin1"), "oids": cmeta[1][3]})
+
     # malformed / unusual spellings: the real text paths vs the Coq path model (Key k / NoKey / Panics)
     n = 5
     spell = spell_extra + [str(k).encode() for k in sub[:40]]
